@@ -36,10 +36,13 @@ class Mod:
 
 class Lifted:
     """a failing obligation of a callee, expressed over its (unmodified) parameters"""
-    __slots__ = ("cls", "kind", "parts", "origin", "desc", "what", "file", "line", "chain")
+    __slots__ = ("cls", "kind", "parts", "origin", "desc", "what", "file", "line", "chain", "must")
 
-    def __init__(self, cls, kind, parts, origin, desc, what, file, line, chain):
+    def __init__(self, cls, kind, parts, origin, desc, what, file, line, chain, must=False):
         self.cls, self.kind, self.parts = cls, kind, parts
+        # must: the condition necessarily held at entry whenever the function returns normally, and it speaks about places
+        # the function never writes -- only then may a caller assume it after the call
+        self.must = must
         self.origin, self.desc, self.what, self.file, self.line, self.chain = origin, desc, what, file, line, chain
 
 
@@ -67,6 +70,7 @@ class Interproc:
         self.watch = None
         self.nowrap = None
         self.establishers = {}         # body id -> clause names it establishes unconditionally ({true} f {clause}); assumed at call sites
+        self._inv_cache = {}
         self.entry_assume = None       # fn(body) -> {clause name: [(a, b, c)]} contracts over parameter terms (see analyse)
         self.clause_results = {}
         self.invariants = []
@@ -330,12 +334,12 @@ class Interproc:
         while rounds < 5:
             before = sig()
             self.prev_sum = dict(self.sum)
-            for bid in dep:
+            for bid in sorted(dep):
                 self.sum.pop(bid, None)
                 self.results.pop(bid, None)
             for bid in bodies:
                 self.summary(bid)
-            for bid in dep:
+            for bid in sorted(dep):
                 if bid not in self.sum and self.f.bodies[bid].kind in ("fn", "method", "closure"):
                     self.summary(bid)
             rounds += 1
@@ -386,6 +390,10 @@ class Interproc:
                     an2.nowrap = self.nowrap
                     absdom.MAX_PARAM = b.argc
                     res2 = an2.analyze(b, entry=st0, collect=False)
+                    for xb in b.exits:
+                        rst = an2.state_before_term(xb)
+                        if rst is not None and rst != []:
+                            res2.ret_states.append((xb, rst))
                     absdom.MAX_PARAM = 0
                     self.clause_results[bid][name] = res2
         s.analysed = True
@@ -428,6 +436,13 @@ class Interproc:
             if k not in seen:
                 seen.add(k)
                 out.append(lf)
+        final = set()
+        for bi, st in res.ret_states:
+            final |= set(st.dirty)
+
+        def must(o, kind, parts, inherited=True):
+            strong = kind == "conj" and len(parts) > 1 and parts[1]
+            return bool(inherited and not strong and b.postdominates(o.block, 0) and self._parts_ok(b, kind, parts, final))
         for o in res.obls:
             if o.ok or o.lift is None:
                 continue
@@ -436,12 +451,13 @@ class Interproc:
             if kind == "lifted":
                 lf = o.lift[1]
                 if self._parts_ok(b, lf.kind, lf.parts, written):
+                    lf.must = must(o, lf.kind, lf.parts, lf.must)
                     add(lf)
                     o.rule = "exported"
                 continue
             parts = o.lift[1:]
             if self._parts_ok(b, kind, parts, written):
-                add(Lifted(o.cls, kind, parts, b.id, o.desc, o.what, o.file, o.line, [b.id]))
+                add(Lifted(o.cls, kind, parts, b.id, o.desc, o.what, o.file, o.line, [b.id], must(o, kind, parts)))
                 o.rule = "exported"
         return out
 
@@ -560,7 +576,15 @@ class Interproc:
         """(iv, rel) facts that hold at every return about the places (reachable from reference parameters) the body wrote"""
         ex_iv = None
         ex_rel = None
+        inv = self.inv_terms(b)
+        paths = []
         for bi, st in res.ret_states:
+            if inv:
+                # global field invariants hold at every return (their stores are INV obligations)
+                st = st.copy()
+                for t, lo, hi in inv:
+                    st.set_iv(t, lo, hi)
+
             def prooted(t):
                 return isinstance(t[1], int) and 1 <= t[1] <= b.argc and t[2][:1] == ("*",)
 
@@ -589,6 +613,15 @@ class Interproc:
                 if v[0] == "n" and v[1] is not None and prooted(v[1]):
                     cands.add(v[1])
             wr = [t for t in cands if written(t)]
+            # copies of (fields of) by-value parameters the body never assigns: `self.pos = pos`
+            for p, v in st.sym.items():
+                if v[0] == "n" and v[1] is not None and isinstance(p[0], int) and 1 <= p[0] <= b.argc and p[1][:1] == ("*",):
+                    src = v[1]
+                    if src[0] == "v" and isinstance(src[1], int) and 1 <= src[1] <= b.argc and src[2][:1] != ("*",) and not b.defs.get(src[1]):
+                        t = ("v", p[0], p[1])
+                        if written(t):
+                            crel[(t, src)] = v[2]
+                            crel[(src, t)] = -v[2]
             for x in wr:
                 for y in cands:
                     if x == y:
@@ -602,12 +635,72 @@ class Interproc:
                         if ha is not None and lb is not None and ha - lb <= d:
                             continue        # nothing beyond the intervals
                         crel[(a, bb)] = d
-            if ex_iv is None:
-                ex_iv, ex_rel = civ, crel
-            else:
-                ex_iv = {t: absdom.iv_join(i, civ[t]) for t, i in ex_iv.items() if t in civ}
-                ex_rel = {k: max(c, crel[k]) for k, c in ex_rel.items() if k in crel}
-        return {t: i for t, i in (ex_iv or {}).items() if i != FULL}, (ex_rel or {})
+            def derived(a, bb, st=st, civ=civ):
+                """a - b <= d from this path's intervals / constants alone"""
+                def rng(t):
+                    v = st.sym.get(term_place(t)) if t[0] == "v" else None
+                    if v is not None and v[0] == "n" and v[1] is None:
+                        return (v[2], v[2])
+                    return st.term_iv(t)
+                ha, lb = rng(a)[1], rng(bb)[0]
+                if ha is None or lb is None:
+                    return None
+                return ha - lb
+            paths.append((civ, crel, derived))
+        if not paths:
+            return {}, {}
+        ex_iv = dict(paths[0][0])
+        for civ, crel, derived in paths[1:]:
+            ex_iv = {t: absdom.iv_join(i, civ[t]) for t, i in ex_iv.items() if t in civ}
+        keys = set()
+        for civ, crel, derived in paths:
+            keys |= set(crel)
+        ex_rel = {}
+        for k in keys:
+            worst = None
+            for civ, crel, derived in paths:
+                d = crel.get(k)
+                if d is None:
+                    d = derived(*k)
+                if d is None:
+                    worst = None
+                    break
+                worst = d if worst is None else max(worst, d)
+            if worst is not None:
+                ex_rel[k] = worst
+        return {t: i for t, i in ex_iv.items() if i != FULL}, ex_rel
+
+    def inv_terms(self, b):
+        """[(term, lo, hi)]: places reachable from reference parameters (through struct fields) that carry a global invariant"""
+        if not self.invariants:
+            return []
+        c = self._inv_cache.get(b.id)
+        if c is None:
+            c = self._inv_cache[b.id] = self._inv_terms(b)
+        return c
+
+    def _inv_terms(self, b):
+        T = self.f.types
+        out = []
+
+        def walk(tix, root, steps, depth):
+            ty = T[tix]
+            if ty["k"] != "adt" or depth > 3:
+                return
+            adt = self.f.adts.get(ty["adt"])
+            if not adt or adt["kind"] != "struct":
+                return
+            for owner, path, lo, hi in self.invariants:
+                if owner == ty["adt"]:
+                    out.append((("v", root, steps + tuple(path)), lo, hi))
+            for nm, ft in adt["variants"][0]["fields"]:
+                if T[ft]["k"] == "adt":
+                    walk(ft, root, steps + (nm,), depth + 1)
+        for i in range(1, b.argc + 1):
+            ty = T[b.locals[i]["t"]]
+            if ty["k"] == "ref":
+                walk(ty["e"], i, ("*",), 0)
+        return out
 
     def _num_leaves(self, tix, prefix=(), depth=0):
         T = self.f.types
@@ -771,7 +864,7 @@ class Interproc:
     def assume_lifted(self, an, ctx, lf, lift, cond):
         """after the call returns normally the callee's precondition held"""
         st = ctx.st
-        if lift is None:
+        if lift is None or not lf.must:
             return
         k = lift[0]
         if k == "conj":
@@ -811,6 +904,7 @@ class Interproc:
                 continue
             for lf in s.exports:
                 ok, lift, cond = self.check_lifted(an, ctx, lf)
+                inst_lift = lift
                 nl = None
                 raw_un = lift[1] if (not ok and lift is not None and lift[0] == "conj") else None
                 if not ok and lift is not None:
@@ -818,13 +912,13 @@ class Interproc:
                         an.cur_dirty = ctx.st.dirty
                         lift = an.conj_lift(lift[1], ctx.st)
                     if lift is not None:
-                        nl = Lifted(lf.cls, lift[0], lift[1:], lf.origin, lf.desc, lf.what, lf.file, lf.line, lf.chain + [an.b.id])
+                        nl = Lifted(lf.cls, lift[0], lift[1:], lf.origin, lf.desc, lf.what, lf.file, lf.line, lf.chain + [an.b.id], lf.must)
                 if an.collect:
                     lo = _lifted_obl(ctx, lf, ok, nl, an)
                     lo.raw = raw_un
                     an.res.obls.append(lo)
                 if len(cands) == 1:
-                    post.append((lf, lift, cond))
+                    post.append((lf, inst_lift, cond))
         # 2. effects
         for cid, s in sums:
             m = self.mod.get(cid)
@@ -841,8 +935,10 @@ class Interproc:
                 pl = ctx.place_of(i)
                 if pl is None:
                     continue
-                if m is None or m.wild or (i + 1) in m.roots:
+                if m is None or m.wild:
                     st.kill_under(pl)
+                elif (i + 1) in m.roots:
+                    st.kill_under(pl, by_call=True)
                 elif m.names:
                     st.kill_under(pl, m.names)
         for lf, lift, cond in post:
@@ -1028,7 +1124,7 @@ class Interproc:
                     lift = ("nz", dv) if (not ok and dv[0] == "n") else None
             nl = None
             if not ok and lift is not None:
-                nl = Lifted(lf.cls, lift[0], lift[1:], lf.origin, lf.desc, lf.what, lf.file, lf.line, lf.chain + [an.b.id])
+                nl = Lifted(lf.cls, lift[0], lift[1:], lf.origin, lf.desc, lf.what, lf.file, lf.line, lf.chain + [an.b.id], False)
             if an.collect:
                 an.res.obls.append(_lifted_obl(ctx, lf, ok, nl, an))
         if an.collect:
@@ -1118,6 +1214,8 @@ def _written_hits(w, pl):
         if not under(q, prefix):
             continue
         if len(w) == 3:
+            if w[2] is None:
+                return True
             rest = q[1][len(prefix[1]):]
             if any((s in w[2]) for s in rest if isinstance(s, str)):
                 return True
